@@ -8,7 +8,7 @@ import traceback
 import facts
 
 VERIF = facts.VERIF
-EVID = os.path.join(VERIF, "evidence")
+EVID = os.environ.get("VERIF_EVIDENCE_DIR") or os.path.join(VERIF, "evidence")
 KNOWN = os.path.join(VERIF, "known_findings.json")
 
 
@@ -117,6 +117,11 @@ def run_property(prop, module, tier, configs, explanation, assumptions, explain=
     if fatal:
         rep.fail("%s.internal" % prop, "fail-closed", fatal)
 
+    if tier == "thorough" and not os.environ.get("VERIF_NO_LIVENESS") and not fatal:
+        try:
+            rep.extra["liveness"] = liveness(prop)
+        except Exception as e:  # liveness is evidence only, never a verdict
+            rep.extra["liveness"] = {"error": str(e)}
     known = load_known()
     known_keys = {f["key"]: f for f in known.get("findings", []) if f.get("property") == prop}
     failing = [o for o in rep.obligations if not o["ok"]]
@@ -179,6 +184,45 @@ def run_property(prop, module, tier, configs, explanation, assumptions, explain=
         prop, n_ok, n_ob, len(rules), ",".join(rep.configs), time.time() - t0,
         "; %d known finding(s)" % len(matched) if matched else ""))
     return 0
+
+
+def liveness(prop):
+    """Rule-liveness pass (thorough tier, evidence only): every one-site mutation / seeded change mapped to this
+    property is applied to a scratch copy of the *current* tree and the quick check is re-run against that copy; the
+    rule set must fire.  Never affects the exit code; a patch that no longer applies is recorded as skipped."""
+    import shutil
+    import subprocess
+    import tempfile
+    with open(os.path.join(VERIF, "selftest", "liveness.json")) as fh:
+        table = json.load(fh)
+    mine = sorted(p for p, props in table.items() if prop in props)
+    out = {}
+    if not mine:
+        return out
+    scratch = tempfile.mkdtemp(prefix="rcgen-liveness-")
+    evdir = tempfile.mkdtemp(prefix="rcgen-liveness-ev-")
+    try:
+        subprocess.run(["rsync", "-a", "--exclude", "target", "--exclude", ".git", facts.REPO + "/", scratch + "/"], check=True)
+        env = dict(os.environ, RCGEN_REPO=scratch, VERIF_EVIDENCE_DIR=evdir, VERIF_NO_LIVENESS="1")
+        for pth in mine:
+            full = os.path.join(VERIF, pth)
+            a = subprocess.run(["patch", "-p1", "-s", "-f", "-i", full], cwd=scratch, capture_output=True, text=True)
+            if a.returncode != 0:
+                subprocess.run(["patch", "-p1", "-R", "-s", "-f", "-i", full], cwd=scratch, capture_output=True)
+                subprocess.run(["rsync", "-a", "--delete", "--exclude", "target", "--exclude", ".git", facts.REPO + "/", scratch + "/"], check=True)
+                out[pth] = "skipped (patch does not apply to the current tree)"
+                continue
+            r = subprocess.run([os.path.join(VERIF, "check"), prop, "--tier", "quick"], cwd=VERIF, env=env, capture_output=True, text=True)
+            fired = r.returncode == 1 and "VIOLATION property=%s" % prop in r.stdout
+            keys = [l.strip().split("  at ")[0].replace("violated ", "") for l in r.stdout.splitlines() if l.strip().startswith("violated")][:3]
+            out[pth] = {"fired": fired, "first_keys": keys}
+            if not fired:
+                print("LIVENESS-WARNING: %s did not fire on %s" % (prop, pth))
+            subprocess.run(["patch", "-p1", "-R", "-s", "-f", "-i", full], cwd=scratch, capture_output=True)
+    finally:
+        shutil.rmtree(scratch, ignore_errors=True)
+        shutil.rmtree(evdir, ignore_errors=True)
+    return out
 
 
 def explain(path):
